@@ -82,9 +82,39 @@ func c20Body(role string, variant string) func() {
 			_ = s.Run()
 			go func() { _ = h.Run() }()
 			vsched.Settle()
-			h.ServeIncoming(rawFrom(peer, self, "A", 1, "98=0", "108=1"))
-			vsched.Settle()
+			if variant != "register-during-logon" {
+				h.ServeIncoming(rawFrom(peer, self, "A", 1, "98=0", "108=1"))
+				vsched.Settle()
+			}
 		})
+		if variant == "register-during-logon" {
+			// the application is still wiring up its callbacks when the peer's Logon arrives: the dispatch task
+			// registers the session's own hooks (timers, counters) in the same pools at the same time, and
+			// nothing but the pools' locks stands between the two
+			reg := make(chan struct{}, 1)
+			go func() {
+				id := h.HandleIncoming("D", func([]byte) bool { return true })
+				oid := h.HandleOutgoing("V", func(simplefixgo.SendingMessage) bool { return true })
+				s.OnChangeState(utils.EventLogon, func() bool { return true })
+				h.OnConnect(func() bool { return true })
+				id2 := h.HandleIncoming(simplefixgo.AllMsgTypes, func([]byte) bool { return true })
+				_ = h.RemoveIncomingHandler("D", id)
+				_ = h.RemoveOutgoingHandler("V", oid)
+				_ = h.RemoveIncomingHandler(simplefixgo.AllMsgTypes, id2)
+				reg <- struct{}{}
+			}()
+			h.ServeIncoming(rawFrom(peer, self, "A", 1, "98=0", "108=1"))
+			time.Sleep(300 * time.Millisecond)
+			h.ServeIncoming(rawFrom(peer, self, "D", 2, "11=x"))
+			_ = s.Send(fixgen.NewMarketDataRequest().SetMDReqID("m"))
+			<-reg
+			time.Sleep(1500 * time.Millisecond)
+			vsched.Settle()
+			h.Stop()
+			atomic.StoreInt64(&c20Drained, int64(<-drained))
+			vsched.Settle()
+			return
+		}
 		if variant == "quick-relogon" {
 			// Logon, Logout and the next Logon within the timers' first polling step: the second Logon
 			// stops the first one's timers while their tasks have done nothing but start waiting
@@ -344,7 +374,7 @@ func runC20(R *vlib.Out) {
 	}
 	var ps []map[string]any
 	for _, role := range []string{"acc", "ini"} {
-		for _, v := range []string{"stop", "peer-logout", "silent", "relogon", "quick-relogon"} {
+		for _, v := range []string{"stop", "peer-logout", "silent", "relogon", "quick-relogon", "register-during-logon"} {
 			ps = append(ps, map[string]any{"role": role, "variant": v})
 		}
 	}
